@@ -190,6 +190,12 @@ type FileStore struct {
 
 	currentTempDirID int
 
+	// snapshotMu is held shared by CreateSnapshot from the moment it picks the files until
+	// they are linked (or copied) into the snapshot directory, and exclusively by replace:
+	// a compaction that commits in between renames the picked files (in use) to .tmp and
+	// removes their tombstones, so the snapshot would hold neither the old nor the new files.
+	snapshotMu sync.RWMutex
+
 	parseFileName ParseFileNameFunc
 
 	obs tsdb.FileStoreObserver
@@ -755,6 +761,9 @@ func (f *FileStore) replace(oldFiles, newFiles []string, updatedFn func(r []TSMF
 		return nil
 	}
 
+	f.snapshotMu.Lock()
+	defer f.snapshotMu.Unlock()
+
 	f.mu.RLock()
 	maxTime := f.lastModified
 	f.mu.RUnlock()
@@ -1181,6 +1190,9 @@ func (f *FileStore) linkNotCopy(oldPath, newPath string) error {
 // in the path provided.
 func (f *FileStore) CreateSnapshot() (string, error) {
 	f.traceLogger.Info("Creating snapshot", zap.String("dir", f.dir))
+
+	f.snapshotMu.RLock()
+	defer f.snapshotMu.RUnlock()
 
 	f.mu.Lock()
 	// create a copy of the files slice and ensure they aren't closed out from
